@@ -105,11 +105,13 @@ impl AggregateStreamInner {
             Vec::with_capacity(filter_state.supported_accumulators_info.len());
 
         for acc_info in &filter_state.supported_accumulators_info {
-            // Skip if we don't yet have a meaningful bound
+            // The predicates are combined with OR, so a row may only be pruned if it
+            // can improve *none* of the aggregates. An aggregate without a meaningful
+            // bound yet can still be improved by any row: no filter can be built.
             let bound = {
                 let guard = acc_info.shared_bound.lock();
                 if (*guard).is_null() {
-                    continue;
+                    return Ok(lit(true));
                 }
                 guard.clone()
             };
